@@ -20,6 +20,7 @@ package counter
 
 import (
 	"bytes"
+	"encoding/base64"
 	"crypto/sha256"
 	"encoding/binary"
 	"encoding/hex"
@@ -82,9 +83,21 @@ var c05w *c05World
 
 const c05LongLen = 3000
 
+// c05RealName: counters whose short name starts with L have 3000-byte names,
+// H = 4096 bytes (the longest name the format allows; three such records fill
+// a page), X = 5000 bytes (too long: the library refuses to store it).
 func c05RealName(short string) string {
-	if strings.HasPrefix(short, "L") { // long-named counters
-		return short + strings.Repeat("_", c05LongLen-len(short))
+	n := 0
+	switch {
+	case strings.HasPrefix(short, "L"):
+		n = c05LongLen
+	case strings.HasPrefix(short, "H"):
+		n = rt.V1MaxName
+	case strings.HasPrefix(short, "X"):
+		n = 5000
+	}
+	if n > len(short) {
+		return short + strings.Repeat("_", n-len(short))
 	}
 	return short
 }
@@ -457,7 +470,8 @@ type c05CCase struct {
 	NlenC string `json:"nlenC"`
 	NextC string `json:"nextC"`
 	NextE string `json:"nextE"`
-	Op    string `json:"op"` // addE | addN | addM
+	Vals  string `json:"vals"` // nz | zero: the values of records C and E
+	Op    string `json:"op"`   // addE | addN | addM | read (counter.Read of E: parses the whole file) | upload (the bytes are handed to the uploader harness)
 	Rand  int64  `json:"rand"` // != 0: random damage instead of the classes
 }
 
@@ -653,6 +667,10 @@ func c05Concretize(b *c05Base, c *c05CCase) []byte {
 	}
 	next(b.offC, c.NextC)
 	next(b.offE, c.NextE)
+	if c.Vals == "zero" {
+		binary.LittleEndian.PutUint64(data[b.offC:], 0)
+		binary.LittleEndian.PutUint64(data[b.offE:], 0)
+	}
 	switch c.Hdr {
 	case "len0":
 		put32(data, 28, 0)
@@ -703,6 +721,14 @@ func c05RandomDamage(b *c05Base, seed int64) ([]byte, []string) {
 	recs := map[string]uint32{"E": b.offE, "C": b.offC, "V": b.offV}
 	rn := []string{"E", "C", "V"}
 	var desc []string
+	if rng.Intn(3) == 0 {
+		for _, r := range rn {
+			if rng.Intn(3) > 0 {
+				binary.LittleEndian.PutUint64(data[recs[r]:], 0)
+				desc = append(desc, fmt.Sprintf("val[%s]=0", r))
+			}
+		}
+	}
 	for k := 1 + rng.Intn(3); k > 0; k-- {
 		switch rng.Intn(8) {
 		case 0, 1:
@@ -862,6 +888,13 @@ func c05RunCorrupt(t *testing.T, b *c05Base, c *c05CCase, budget int, skipCycles
 		name, short = b.nameN, b.nameN
 	case "addM":
 		name, short = b.nameM, b.nameM
+	case "read":
+		name, short = b.nameE, "-"
+	case "upload":
+		// the uploader lives in another package: hand the bytes over
+		rt.Out(rt.M{"kind": "bytes", "id": c.ID, "name": c05CountName(c05T1), "data": base64.StdEncoding.EncodeToString(orig),
+			"limClass": c05LimitClass(b, orig), "damage": desc, "chain": c05ChainClass(b, orig, b.nameE)})
+		return "ok"
 	}
 	chain := c05ChainClass(b, orig, name)
 	if skipCycles && chain == "cycle" {
@@ -889,7 +922,14 @@ func c05RunCorrupt(t *testing.T, b *c05Base, c *c05CCase, budget int, skipCycles
 	out["chain"] = chain
 	ctr := &Counter{name: name, file: w.f}
 	const amount = 3
-	ret, n, where, text = c05h.Run(c.Op, budget, func() { ctr.Add(amount) })
+	if c.Op == "read" {
+		var rv uint64
+		var rerr error
+		ret, n, where, text = c05h.Run(c.Op, budget, func() { rv, rerr = Read(ctr) })
+		out["rv"], out["rerr"] = rv, rerr != nil
+	} else {
+		ret, n, where, text = c05h.Run(c.Op, budget, func() { ctr.Add(amount) })
+	}
 	out["steps"] = n
 	if ret != "ok" {
 		out["ret"], out["where"], out["text"], out["stage"] = ret, where, text, "add"
@@ -922,6 +962,8 @@ func c05RunCorrupt(t *testing.T, b *c05Base, c *c05CCase, budget int, skipCycles
 	dE := int64(counterStateBits(ctr.state.bits.Raw()).extra())
 	out["dP"], out["dE"] = dP, dE
 	switch {
+	case c.Op == "read":
+		out["mode"] = "-"
 	case dP == amount && dE == 0:
 		out["mode"] = "persist"
 	case dP == 0 && dE == amount:
